@@ -6,10 +6,27 @@ FAIL_PREFIXES = ["C10"]
 RULE = ("sequential point-cloud and mesh streams with quantized float attributes (and integer / generic ones) decoded with every random "
         "subset of attribute types skipped: the model decoder with the same skip set must return the same description, integer words and "
         "transform data as the real decoder (also on corrupted streams); directly on the implementation: InitFromAttribute + "
-        "InverseTransformAttribute on the exposed data must equal the normal decode bit for bit, unskipped attributes and faces identical")
+        "InverseTransformAttribute on the exposed data must equal the normal decode bit for bit, unskipped attributes and faces identical. "
+        "(2) all-methods search (h_c10): grid-patch meshes (1..5 attributes incl. quantized positions / tex coords / normals, integer generics) through "
+        "Edgebreaker standard/valence and sequential at speeds 0..10, point clouds with 1..4 quantized float attributes + integer ones through kd-tree "
+        "and sequential; every stream decoded normally and with 2-3 random subsets of the five attribute types skipped: same counts, unique ids, "
+        "faces; unskipped attributes byte-identical; a skipped attribute exposed as integers must carry a transform description whose re-application "
+        "reproduces the normal decode bit for bit")
 NEEDS = ["Model/SeqCodecInst.vo", "Base/DriverSupport.vo"]
 def corr_runs(ctx):
-    return [dict(tag="h_seq_skip", harness="seq", driver="seq", args=[ctx.tier, ctx.seed], needs_vo=NEEDS, env={"SEQ_MODE": "skip"}, timeout=1500)]
+    return [dict(tag="h_seq_skip", harness="seq", driver="seq", args=[ctx.tier, ctx.seed], needs_vo=NEEDS, env={"SEQ_MODE": "skip"}, timeout=1500),
+            dict(tag="h_c10", harness="c10", driver=None, args=[ctx.tier, ctx.seed], timeout=3000)]
+def extra(ctx, lib):
+    import os
+    for l in open(os.path.join(V.BUILD, "C10_h_c10.cases")):
+        if l.startswith("# STATS"):
+            ctx.cov["all_methods_skip_search"] = l[2:].strip()
+            try:
+                kv = dict(x.split("=") for x in l.split()[2:4])
+                ctx.cov["evaluations"] = ctx.cov.get("evaluations", 0) + int(kv["skip_decodes"])
+                ctx.cov["distinct_nontrivial"] = ctx.cov.get("distinct_nontrivial", 0) + int(kv["skip_decodes"])
+            except Exception:
+                pass
 def run(ctx):
     V.standard_run(ctx, __import__(__name__))
 def replay(ctx, path):
